@@ -181,6 +181,23 @@ def validate_multiset(machine, rec):
         what = ("user %s on %s" % (d["kind"], "the problem" if owner == "pep" else
                                     ("a leaf function" if machine.regs[owner].get_is_leaf() else "a composite function")))
         take(d["obj"], n, what, d.get("sense"))
+    # a step that documents a side condition declares it: as many constraints as documented are attached to the function
+    # (and, being attached, they are accounted for below like every function-level constraint)
+    for d in machine.declared:
+        if d["kind"] == "step_constraints" and len(d["added"]) != d["expected"]:
+            F("step_side_constraints_not_declared:%s" % d["step"],
+              "%s_step (%s) attached %d constraint(s) to its function, its documentation states %d side condition(s)"
+              % (d["step"], {k_: v_ for k_, v_ in d["op"]["args"].items() if k_ in ("notion", "opt")}, len(d["added"]), d["expected"]))
+    # every leaf has its own coordinate: the k-th leaf point / leaf expression of the model is the k-th row of the Gram matrix /
+    # entry of the vector of function values (two leaves sharing an index are one solver variable)
+    from PEPit.point import Point as _P
+    from PEPit.expression import Expression as _E
+    for kind_, lst_, cnt_ in (("point", _P.list_of_leaf_points, _P.counter), ("expression", _E.list_of_leaf_expressions, _E.counter)):
+        idxs = [o_.counter for o_ in lst_]
+        if idxs != list(range(len(lst_))) or cnt_ != len(lst_):
+            F("leaf_indices_not_a_numbering:%s" % kind_,
+              "leaf %ss carry the indices %s (class counter %s) instead of 0..%d: two leaves share a coordinate or one is skipped"
+              % (kind_, idxs[:12], cnt_, len(lst_) - 1))
     # a declared comparison  lhs REL rhs  is the constraint  lhs - rhs <= 0 / rhs - lhs <= 0 / lhs - rhs = 0  as WRITTEN
     idx2 = canon.Index()
     for d in machine.declared:
